@@ -177,6 +177,7 @@ fn recover_and_check(
     let disk = if cfg.recurse_every.is_some() && depth == 0 { Disk::journaled() } else { Disk::new() };
     disk.set_files(files.clone());
     stats.recoveries += 1;
+    local.evals += 1;
     let mut core = match hc::open(&disk) {
         Ok(Ok(c)) => c,
         Ok(Err(e)) => {
